@@ -44,6 +44,8 @@ fn wop_strategy() -> BoxedStrategy<WOp> {
         2 => name.clone().prop_map(|name| WOp::RemoveStream { name }),
         1 => (name, any::<u32>()).prop_map(|(name, bits)| WOp::SetState { name, bits }),
         1 => Just(WOp::CfbFlush),
+        2 => Just(WOp::Walk),
+        1 => (0u8..8).prop_map(|name| WOp::RemoveAll { name }),
     ]
     .boxed()
 }
